@@ -5,6 +5,7 @@ package server
 import (
 	"fmt"
 	"math/rand"
+	"sort"
 	"strings"
 	"sync"
 	"sync/atomic"
@@ -30,6 +31,7 @@ type c07hConn struct {
 	c       *miniClient
 	cleaned atomic.Bool
 	everReg atomic.Bool
+	ctlAs   atomic.Int64 // identity of the latest successful authentication if it was a control-type handshake, else 0
 }
 
 func (k *c07hConn) dead() (bool, string) {
@@ -223,6 +225,11 @@ func (w *c07hWorld) apply(op c07hOp, seq bool) bool {
 		ok, _ := c.Login(x, w.sec(x), ct)
 		w.log(fmt.Sprintf("%s ok=%v", desc, ok))
 		if ok {
+			if ct == "control" {
+				k.ctlAs.Store(x)
+			} else {
+				k.ctlAs.Store(0)
+			}
 			w.run.Count("logins_ok", 1)
 			if otherID {
 				w.run.Count("reauth_under_other_id", 1)
@@ -254,6 +261,7 @@ func (w *c07hWorld) apply(op c07hOp, seq bool) bool {
 			w.clients = append(w.clients, r.ClientID)
 			w.secret[r.ClientID] = r.SecretKey
 			w.mu.Unlock()
+			k.ctlAs.Store(r.ClientID)
 			w.run.Count("first_connect_ok", 1)
 		}
 		w.log(fmt.Sprintf("first(c%d)=%v", op.Slot, r != nil && r.Success))
@@ -355,6 +363,25 @@ func (w *c07hWorld) check(opKind string) {
 		if k.cleaned.Load() {
 			if _, ok := sm.GetConnection(id); ok {
 				w.viol("C07:dead-conn-returned|lookup=GetConnection|dead="+how, opKind, map[string]any{"conn": id})
+			}
+		}
+	}
+	// at most one control connection per client is current (sequential runs only; see registry level)
+	if opKind != "barrier" {
+		per := map[int64][]string{}
+		for _, k := range all {
+			rc := inList[k.c.ConnID]
+			if d, _ := k.dead(); d || rc == nil {
+				continue
+			}
+			if x := k.ctlAs.Load(); x != 0 && rc.Authenticated && rc.ClientID == x {
+				per[x] = append(per[x], k.c.ConnID)
+			}
+		}
+		for x, cs := range per {
+			if len(cs) > 1 {
+				sort.Strings(cs)
+				w.viol("C07:two-live-control-conns-for-client", opKind, map[string]any{"client_id": x, "client": w.name(x), "conns": cs})
 			}
 		}
 	}
